@@ -177,6 +177,17 @@ func c08ProviderReq(rng *rand.Rand, i int, created map[string]bool) c08Req {
 		}
 		return c08Req{Req: HReq{M: "POST", P: "/redis/incr/" + key}, Op: &c08Op{"counter", key, "incr", ""}}
 	}
+	if rng.Intn(4) == 0 {
+		// short-lived documents: inserts and deletes that move the others around while they are being scanned
+		if j := i - 1 - rng.Intn(40); j >= 0 && created[fmt.Sprintf("mongo:x%d", j)] && rng.Intn(2) == 0 {
+			xk := fmt.Sprintf("x%d", j)
+			delete(created, "mongo:"+xk)
+			return c08Req{Req: HReq{M: "DELETE", P: "/mongo/delete/" + xk}, Op: &c08Op{"mongo", xk, "delete", ""}}
+		}
+		xk := fmt.Sprintf("x%d", i)
+		created["mongo:"+xk] = true
+		return c08Req{Req: c08JSON("POST", "/mongo/insert", map[string]interface{}{"k": xk, "val": val}), Op: &c08Op{"mongo", xk, "write", val}}
+	}
 	key := fmt.Sprintf("m%d", rng.Intn(4))
 	if !created["mongo:"+key] {
 		created["mongo:"+key] = true
@@ -189,6 +200,9 @@ func c08ProviderReq(rng *rand.Rand, i int, created map[string]bool) c08Req {
 		return c08Req{Req: c08JSON("POST", "/mongo/update/"+key, map[string]interface{}{"val": val}), Op: &c08Op{"mongo", key, "update", val}}
 	case 4, 5:
 		return c08Req{Req: c08JSON("POST", "/mongo/tag/"+key, map[string]interface{}{"tag": "t" + val}), Op: &c08Op{"mongo", key, "tag", "t" + val}}
+	}
+	if rng.Intn(2) == 0 {
+		return c08Req{Req: HReq{M: "GET", P: "/mongo/scan/" + key}, Op: &c08Op{"mongo", key, "read", ""}}
 	}
 	return c08Req{Req: HReq{M: "GET", P: "/mongo/find/" + key}, Op: &c08Op{"mongo", key, "read", ""}}
 }
@@ -305,8 +319,25 @@ func c08ParseOut(op *c08Op, body string) (out c08Out, torn string, err error) {
 				recKey, mirrors = "doc", []string{"g1", "g2"}
 			}
 			out.Found = m[recKey] != nil
+			var scanned map[string]interface{}
+			if docs, isScan := m["docs"].([]interface{}); isScan || m["op"] == "scan" {
+				// a filtered scan: keys are unique, so it yields the document once or not at all, and the count agrees
+				out.Found = len(docs) > 0
+				if len(docs) > 1 {
+					torn = fmt.Sprintf("a scan for the unique key %v returned %d documents", op.Key, len(docs))
+				}
+				if cnt := str(m["n"]); cnt != "0" && cnt != "1" {
+					torn = fmt.Sprintf("CountDocuments for the unique key %v is %s", op.Key, cnt)
+				}
+				if out.Found {
+					scanned, _ = docs[0].(map[string]interface{})
+				}
+			}
 			if out.Found {
 				rec, _ := m[recKey].(map[string]interface{})
+				if scanned != nil {
+					rec = scanned
+				}
 				out.Val = str(rec["val"])
 				out.Tag = str(rec["tag"])
 				for _, f := range mirrors {
